@@ -339,6 +339,17 @@ def dns_lengths_ok(host):
     return all(0 < len(l) < 64 for l in labels[:-1]) and len(labels[-1]) < 64
 
 
+def idn_ok(host):
+    """the host is a name Python's own IDNA codec can carry both ways (for ASCII names without an ACE label this
+    is just the label-length rule)"""
+    try:
+        a = host.encode('idna')
+        b = a.decode('idna')
+        return b.encode('idna') == a
+    except UnicodeError:
+        return False
+
+
 _PCT_RUN = re.compile(r'(?:%[0-9A-Fa-f]{2})+')
 
 
@@ -985,7 +996,7 @@ class C06(Property):
         if g is None:
             return None
         host = g.get('host') or ''
-        if host and not host.startswith('[') and not dns_lengths_ok(host):
+        if host and not host.startswith('[') and not (dns_lengths_ok(host) and idn_ok(host)):
             return None
         self.stats['wellformed'] = self.stats.get('wellformed', 0) + 1
         d1, d2 = ch[1], ch[2]
